@@ -37,6 +37,11 @@ ASSUMPTIONS = [
     'int(issue time), so "issue time" in the spec is the floored one: a ticket really issued at t0+0.9 and presented at '
     't0+timeout+0.5 is rejected by the code although its true age is below the timeout -- a stated specification boundary); '
     'issue times are < 2^32 (eight hex digits) where acceptance is demanded',
+    'hashalg ranges over names hashlib.new() accepts, including ones that are not attributes of the hashlib module '
+    '(sha512_256, SHA256, sm3, md5-sha1 ...)',
+    'validly signed tickets with FOREIGN contents may make identify raise and are outside the claim (int(\'abc\'), bad base64, '
+    'invalid tokens) -- EXCEPT legacy tickets with user_data \'userid_type:unicode\' and valid tokens, which earlier releases '
+    'issued for text user ids: they must yield that text (spec_legacy_unicode)',
     'cookie text comes out of WebOb\'s strict UTF-8 decoder, so it holds Unicode scalar values only (no lone surrogates)',
     'REMOTE_ADDR is a dotted-decimal IPv4 address with parts <= 255 or an IPv6 text containing ":" (latin-1)',
     'int() digit strings stay below CPython\'s 4300-digit limit',
@@ -544,7 +549,7 @@ def from_wire(case, raw):
     oc, outs, resp, fb = model
     outs = [[o[0], [_fix_ck(c) for c in o[1]]] if o[0] == 2 else o for o in outs]
     resp = [_fix_ck(c) for c in resp]
-    spec = [spec[0], spec[1], [_fix_ck(c) for c in spec[2]], spec[3], [[_fix_ck(c) for c in f] for f in spec[4]]]
+    spec = [spec[0], spec[1], [_fix_ck(c) for c in spec[2]], spec[3], [[_fix_ck(c) for c in f] for f in spec[4]], spec[5]]
     return {'model': [oc, outs, resp, fb], 'spec': spec}
 
 
@@ -587,7 +592,7 @@ def _problems(case, obs, spec):
     bad = []
     if not isinstance(obs, list) or len(obs) != 4 or (obs and obs[0] == 'HARNESS-EXC'):
         return [('harness', obs)]
-    doks, expect, sresp, sattrs, final = spec
+    doks, expect, sresp, sattrs, final, legacy = spec
     oc, outs, resp, fb = obs
     multi = any(3 <= op[0] <= 5 for op in case['ops'])       # a second helper was consulted for this request
     regs = any(op[0] in (6, 7) for op in case['ops'])     # the application registered response callbacks of its own
@@ -619,6 +624,15 @@ def _problems(case, obs, spec):
             bad.append(('never-raises', r))
         if r[0] == 1 and not dok:
             bad.append(('digest-law', [op[0], r]))
+    if legacy and ids:
+        # a validly signed LEGACY ticket (user_data 'userid_type:unicode', what earlier releases issued for text user ids):
+        # the text user id inside the timeout window, nothing after; never a raise
+        want, got = legacy[0], ids[0]
+        if want == [0]:
+            if got != [0]:
+                bad.append(('legacy-unicode-ticket', [got, want]))
+        elif got[0] != 1 or got[1] != want[1] or got[2] != want[2] or _tokset(got[3]) != _tokset(want[3]):
+            bad.append(('legacy-unicode-ticket', [got, want]))
     if expect[0] == 1 and ids:
         want = expect[1]
         got = ids[0]
@@ -696,6 +710,7 @@ def classify(case, obs, spec):
     clauses = sorted(set(p[0] for p in pr))
     if clauses == ['never-raises'] and _nonascii_digest(case):
         return 'C09-nonascii-digest-typeerror'
+    # (C09-legacy-unicode-userid-raises is repaired in /repo 6504010: a raise on a legacy ticket is a plain violation again)
     if clauses and set(clauses) <= {'reissue'} and any(op[0] == 1 for op in case['ops']) and not any(op[0] >= 3 for op in case['ops']):  # (codes 3..7)
         ops = case['ops']
         first_id = min((i for i, op in enumerate(ops) if op[0] == 0), default=None)
